@@ -38,6 +38,28 @@ fn random_payload_frame(rng: &mut Rng, icao: u32) -> Vec<u8> {
     f
 }
 
+/// Address/parity formats at the edges of the overlay arithmetic: a frame whose AP field is 000000
+/// (address == CRC of the data bits) and a frame whose data bits are all zero (CRC == 0, AP == address).
+fn overlay_edge_frame(rng: &mut Rng, icao: u32) -> (Vec<u8>, &'static str) {
+    let df = *rng.pick(&[0u64, 4, 5, 16, 20, 21]);
+    let long = df >= 16;
+    if rng.chance(0.7) {
+        let body = ((rng.next() as u128) << 64) | rng.next() as u128;
+        let mut f = modes::raw_frame(df, long, body, 0);
+        let n = f.len();
+        let crc = modes::crc24(&f[..n - 3]);
+        if crc == 0 { modes::seal(&mut f, icao); return (f, "overlay-edge"); }
+        // parity field all zero: the frame belongs to the aircraft whose address equals the CRC
+        f[n - 3] = 0; f[n - 2] = 0; f[n - 1] = 0;
+        (f, "ap-zero")
+    } else {
+        // DF0 with an all-zero body: CRC of the data is 0, so AP is the bare address
+        let mut f = modes::raw_frame(0, false, 0, 0);
+        modes::seal(&mut f, icao);
+        (f, "crc-zero")
+    }
+}
+
 fn gen(rng: &mut Rng, _idx: u64, tier: Tier) -> Case {
     let n_ac = rng.range(2, 4) as usize;
     let addrs = gen::addresses(rng, n_ac);
@@ -60,6 +82,7 @@ fn gen(rng: &mut Rng, _idx: u64, tier: Tier) -> Case {
                 (gen::frame(rng, &mut z, k, false), "zero-address".to_string())
             }
             5 if rng.chance(0.3) => (gen::frame(rng, &mut acs[a], Kind::OtherDf, false), "otherdf".to_string()),
+            6 if rng.chance(0.5) => { let (f, t) = overlay_edge_frame(rng, acs[a].icao); (f, t.to_string()) }
             _ => { let k = *rng.pick(gen::COMMON_KINDS); (gen::frame(rng, &mut acs[a], k, false), format!("{:?}", k).to_lowercase()) }
         };
         let deco = rng.below(4) == 0;
